@@ -1,6 +1,8 @@
 package main
 
 import (
+	"errors"
+	"encoding/json"
 	"fmt"
 	"regexp"
 	"strings"
@@ -77,6 +79,15 @@ func runC02(r *run) {
 				emit(caseT{"render", (&world{}).args(src, g.context(v))})
 			}
 		}
+		// every Go kind of leaf that can carry text, reached in every way a template reaches data
+		for _, leaf := range c02LeafNames {
+			for _, tpl := range []string{"{{ L }}", "{{ L|default:\"d\" }}", "{% cycle L \"x\" %}", "{% firstof L %}", "{% for x in L_list %}{{ x }}{% endfor %}", "{% with y=L %}{{ y }}{% endwith %}",
+				"{{ L|upper }}", "{{ L|lower|capfirst }}", "{{ L_map.k }}", "{% for k, v in L_map %}{{ v }}{% endfor %}", "{{ \"a\"|add:L }}", "{% set y = L %}{{ y }}", "{{ L_fn() }}", "{{ L_struct.F }}",
+				"{% macro m(p) %}{{ p }}{% endmacro %}{{ m(L) }}", "{{ L|default_if_none:\"d\" }}", "{{ L_list|first }}", "{{ L_list|join:\",\" }}", "{% ifchanged L %}{{ L }}{% endifchanged %}", "{{ L|truncatechars:99 }}",
+				"{% if L %}{{ L }}{% endif %}", "{{ L_list.0 }}", "{{ L|stringformat:\"%v\" }}", "{{ L|stringformat:\"%s\" }}"} {
+				emit(caseT{"goleaf", []string{hx(strings.ReplaceAll(tpl, "L", leaf)), leaf}})
+			}
+		}
 		// values Go code passes with a String method, a cycle value, map keys, nested data
 		for _, src := range []string{"{{ sg }}", "{{ psg }}", "{% for x in sgl %}{{ x }}{% endfor %}", "{% with y=sg %}{{ y }}{% endwith %}",
 			"{% cycle s1 s2 as row silent %}{{ row }}", "{% for k, v in tm sorted %}{{ k }}{{ v }}{% endfor %}", "{{ sg|upper }}", "{% firstof sg %}"} {
@@ -87,7 +98,84 @@ func runC02(r *run) {
 	r.finish(map[string]any{"marker": c02Marker})
 }
 
+type c02Named string
+type c02Struct struct{ F any }
+
+var c02LeafNames = []string{"Lnamed", "Lbytes", "Lraw", "Larr", "Lrunes", "Lpstr", "Lppstr", "Lerr", "Lsg", "Lpsg", "Lval", "Liface"}
+
+func c02Leaf(name string) any {
+	m := c02Marker
+	switch name {
+	case "Lnamed":
+		return c02Named(m)
+	case "Lbytes":
+		return []byte(m)
+	case "Lraw":
+		return json.RawMessage(m)
+	case "Larr":
+		var a [8]byte
+		copy(a[:], m)
+		return a
+	case "Lrunes":
+		return []rune(m)
+	case "Lpstr":
+		return &m
+	case "Lppstr":
+		p := &m
+		return &p
+	case "Lerr":
+		return errors.New(m)
+	case "Lsg":
+		return stringerT{m}
+	case "Lpsg":
+		return &ptrStringerT{m}
+	case "Lval":
+		return pongo2.AsValue(m)
+	}
+	var i any = m
+	return &i
+}
+
+func execGoLeaf(r *run, c caseT) {
+	src, leaf := unhx(c.args[0]), c.args[1]
+	v := c02Leaf(leaf)
+	ctx := pongo2.Context{leaf: v, leaf + "_list": []any{v, v}, leaf + "_map": map[string]any{"k": v}, leaf + "_fn": func() any { return v }, leaf + "_struct": c02Struct{v}}
+	obs, out := "", ""
+	func() {
+		defer func() {
+			if p := recover(); p != nil {
+				obs = "panic:" + fmt.Sprint(p)
+			}
+		}()
+		tpl, err := pongo2.FromString(src)
+		if err != nil {
+			obs = "cerr"
+			return
+		}
+		var xerr error
+		out, xerr = tpl.Execute(ctx)
+		if xerr != nil {
+			obs = "xerr"
+		} else {
+			obs = obsOK(out)
+		}
+	}()
+	id := r.emit(c.op, c.args, "goleaf:"+obs)
+	r.nontrivial(c.args[0])
+	if strings.HasPrefix(obs, "panic") {
+		r.reject(id, "panic", map[string]any{"template": src, "leaf": leaf, "observed": obs})
+		return
+	}
+	if strings.HasPrefix(obs, "ok:") && hasRaw(out) {
+		r.reject(id, "a context value reached the output unescaped", map[string]any{"template": src, "leaf_kind": fmt.Sprintf("%T", v), "output": out})
+	}
+}
+
 func execC02(r *run, c caseT) {
+	if c.op == "goleaf" {
+		execGoLeaf(r, c)
+		return
+	}
 	if c.op == "gostringer" {
 		src := unhx(c.args[0])
 		tpl, err := pongo2.FromString(src)
